@@ -619,7 +619,7 @@ pub open spec fn nbelow(n: CN, m: int) -> bool decreases n {
 }
 pub open spec fn cbelow(c: CE, m: int) -> bool { nbelow(c.node, m) }
 /// the edge is a legal diagram of a manager with `n` levels
-pub open spec fn okc(c: CE, n: int) -> bool { nwf(c.node) && nbelow(c.node, n) }
+pub open spec fn okc(c: CE, n: int) -> bool { cwf(c) && cbelow(c, n) }
 /// expansion of a node to a plain BDD under the accumulated polarity `p` (complement marks pushed to the leaves)
 #[verifier::opaque]
 pub open spec fn nx(n: CN, p: bool) -> Tree decreases n {
@@ -628,18 +628,17 @@ pub open spec fn nx(n: CN, p: bool) -> Tree decreases n {
         CN::Inner(l, t, e) => mk(l, nx(t.node, p != t.neg), nx(e.node, p != e.neg)),
     }
 }
-#[verifier::inline]
-pub open spec fn ex(c: CE, p: bool) -> Tree { nx(c.node, p != c.neg) }
-/// the function denoted by an edge, as a plain BDD term
-#[verifier::inline]
+/// the function denoted by an edge, as a plain BDD term.  Opaque: exec proofs see it only through the re-fuelling
+/// lemmas below (`tv(cmk(..))`, `tv(ct(..))`), so no polarity-carrying `nx(n, p)` terms arise in their contexts.
+#[verifier::opaque]
 pub open spec fn tv(c: CE) -> Tree { nx(c.node, c.neg) }
-/// value of the function denoted by edge `c` under `env`: `semc(c, env) == sem(tv(c), env)` (lemma_semc).
-/// Quantified postconditions are stated with `semc` and triggered on its tag-free core `sem(nx(c.node, false), env)`,
-/// so that they fire for every edge pointing to the same node, whatever its tag.
-#[verifier::inline]
-pub open spec fn semc(c: CE, env: Env) -> bool { c.neg != sem(nx(c.node, false), env) }
+/// value of the function denoted by edge `c` under `env`: the node-by-node interpretation of the expanded diagram.
+/// Opaque: exec proofs use it only through the re-fuelling lemmas below (over `cmk`, `ct`, `cxor`, `cflip`, `cwith`).
+#[verifier::opaque]
+pub open spec fn csem(c: CE, env: Env) -> bool { sem(tv(c), env) }
 /// the variable set denoted by the NODE of `c` (the algorithms ignore the tag of a variable-set edge; a positive
 /// cube is always an uncomplemented edge, for which `vsv(c) == tv(c)`)
+#[verifier::opaque]
 pub open spec fn vsv(c: CE) -> Tree { nx(c.node, false) }
 
 pub broadcast proof fn lemma_nx_nmk(l: u32, t: CE, e: CE, p: bool)
@@ -743,19 +742,30 @@ pub broadcast proof fn lemma_nx_pol(a: CN, b: CN, qa: bool, qb: bool)
     requires nwf(a), nwf(b), qa != qb,
     ensures #[trigger] nx(a, qa) != #[trigger] nx(b, qb),
 { lemma_atl(a, qa); lemma_atl(b, qb); }
-pub proof fn lemma_semc(c: CE, env: Env)
-    ensures semc(c, env) == sem(tv(c), env),
-{ lemma_sem_nx(c.node, c.neg, env); }
-/// Shannon expansion at the level of `semc`: the tag-free core of a node is the if-then-else of its two child EDGES
-pub broadcast proof fn lemma_bsem_nmk(l: u32, t: CE, e: CE, env: Env)
-    ensures #[trigger] sem(nx(nmk(l, t, e), false), env) == (if env(l as int) { semc(t, env) } else { semc(e, env) }),
-{ reveal_with_fuel(nx, 2); reveal_with_fuel(nwf, 2); reveal_with_fuel(nbelow, 2); lemma_sem_nx(t.node, false != t.neg, env); lemma_sem_nx(e.node, false != e.neg, env); }
-/// what the apply algorithms need: one unfolding step of each recursive spec function over `nmk` (no polarity-carrying
-/// `nx(n, p)` terms arise from these)
-pub broadcast proof fn lemma_bsem_one(n: CN, env: Env)
-    requires n is One,
-    ensures #[trigger] sem(nx(n, false), env) == true,
-{ reveal_with_fuel(nx, 1); }
+pub broadcast proof fn lemma_csem_tv(c: CE, env: Env)
+    ensures #![trigger csem(c, env)] #![trigger sem(tv(c), env)] csem(c, env) == sem(tv(c), env),
+{ reveal(csem); }
+/// Shannon expansion: an edge to an inner node denotes the (complemented) if-then-else of its two child EDGES
+pub broadcast proof fn lemma_csem_cmk(n: bool, l: u32, t: CE, e: CE, env: Env)
+    ensures #[trigger] csem(cmk(n, l, t, e), env) == (n != (if env(l as int) { csem(t, env) } else { csem(e, env) })),
+{
+    reveal(csem); reveal(tv); reveal_with_fuel(nx, 2);
+    lemma_sem_nx(nmk(l, t, e), n, env); lemma_sem_nx(t.node, false != t.neg, env); lemma_sem_nx(e.node, false != e.neg, env);
+    lemma_sem_nx(t.node, t.neg, env); lemma_sem_nx(e.node, e.neg, env);
+}
+pub broadcast proof fn lemma_csem_ct(n: bool, env: Env)
+    ensures #[trigger] csem(ct(n), env) == !n,
+{ reveal(csem); reveal(tv); reveal_with_fuel(nx, 1); }
+/// complementing an edge complements the function
+pub broadcast proof fn lemma_csem_cxor(c: CE, b: bool, env: Env)
+    ensures #![trigger csem(cxor(c, b), env)] #![trigger cxor(c, b), csem(c, env)] csem(cxor(c, b), env) == (b != csem(c, env)),
+{ reveal(csem); reveal(tv); lemma_sem_nx(c.node, c.neg != b, env); lemma_sem_nx(c.node, c.neg, env); }
+pub broadcast proof fn lemma_csem_cflip(c: CE, env: Env)
+    ensures #![trigger csem(cflip(c), env)] #![trigger cflip(c), csem(c, env)] csem(cflip(c), env) == !csem(c, env),
+{ reveal(csem); reveal(tv); lemma_sem_nx(c.node, !c.neg, env); lemma_sem_nx(c.node, c.neg, env); }
+pub broadcast proof fn lemma_csem_cwith(c: CE, b: bool, env: Env)
+    ensures #![trigger csem(cwith(c, b), env)] #![trigger cwith(c, b), csem(c, env)] csem(cwith(c, b), env) == ((b != c.neg) != csem(c, env)),
+{ reveal(csem); reveal(tv); lemma_sem_nx(c.node, b, env); lemma_sem_nx(c.node, c.neg, env); }
 pub broadcast proof fn lemma_nwf_one(n: CN)
     requires n is One,
     ensures #[trigger] nwf(n),
@@ -764,10 +774,73 @@ pub broadcast proof fn lemma_nbelow_one(n: CN, m: int)
     requires n is One,
     ensures #[trigger] nbelow(n, m),
 { reveal_with_fuel(nbelow, 1); }
-pub broadcast group ce_core { lemma_bsem_nmk, lemma_nwf_nmk, lemma_nbelow_nmk, lemma_bsem_one, lemma_nwf_one, lemma_nbelow_one }
-/// link to the plain-BDD lemma libraries (complementation, wf / top / below of the expansion)
-pub broadcast group ce_tree { lemma_sem_mk, lemma_nx_nmk, lemma_sem_nx, lemma_wf_mk, lemma_below_mk, lemma_nwf_wf, lemma_nx_top }
-pub broadcast group ce_inj_lemmas { lemma_nx_neq, lemma_nx_pol }
+/// re-tagging an edge to an inner node / the terminal yields the constructor form again (creates the `cmk` / `ct` term
+/// on which the other lemmas trigger)
+pub broadcast proof fn lemma_cwith_cmk(n: bool, l: u32, t: CE, e: CE, b: bool)
+    ensures #[trigger] cwith(cmk(n, l, t, e), b) == cmk(b, l, t, e), {}
+pub broadcast proof fn lemma_cxor_cmk(n: bool, l: u32, t: CE, e: CE, b: bool)
+    ensures #[trigger] cxor(cmk(n, l, t, e), b) == cmk(n != b, l, t, e), {}
+pub broadcast proof fn lemma_cflip_cmk(n: bool, l: u32, t: CE, e: CE)
+    ensures #[trigger] cflip(cmk(n, l, t, e)) == cmk(!n, l, t, e), {}
+pub broadcast proof fn lemma_cwith_ct(n: bool, b: bool)
+    ensures #[trigger] cwith(ct(n), b) == ct(b), {}
+pub broadcast proof fn lemma_cxor_ct(n: bool, b: bool)
+    ensures #[trigger] cxor(ct(n), b) == ct(n != b), {}
+pub broadcast proof fn lemma_cflip_ct(n: bool)
+    ensures #[trigger] cflip(ct(n)) == ct(!n), {}
+/// what the apply algorithms need: one unfolding step of each recursive spec function over the constructors, and the
+/// algebra of tags
+pub broadcast group ce_core { lemma_csem_cmk, lemma_csem_ct, lemma_csem_cxor, lemma_csem_cflip, lemma_csem_cwith, lemma_nwf_nmk, lemma_nbelow_nmk, lemma_nwf_one, lemma_nbelow_one,
+    lemma_cwith_cmk, lemma_cxor_cmk, lemma_cflip_cmk, lemma_cwith_ct, lemma_cxor_ct, lemma_cflip_ct }
+
+// link to the plain-BDD lemma libraries: the expansion `tv` over the constructors, wf / top / below of the expansion
+pub broadcast proof fn lemma_tv_cmk(n: bool, l: u32, t: CE, e: CE)
+    ensures #[trigger] tv(cmk(n, l, t, e)) == mk(l, tv(cxor(t, n)), tv(cxor(e, n))),
+{ reveal(tv); reveal_with_fuel(nx, 2); }
+pub broadcast proof fn lemma_tv_ct(n: bool)
+    ensures #[trigger] tv(ct(n)) == Tree::Leaf(!n),
+{ reveal(tv); reveal_with_fuel(nx, 1); }
+pub broadcast proof fn lemma_tv_props(c: CE)
+    ensures cwf(c) ==> wf(#[trigger] tv(c)), top(tv(c)) == ctop(c), (tv(c) is Leaf) == (c.node is One),
+        (tv(c) == Tree::Leaf(false)) == (c == ct(true)), (tv(c) == Tree::Leaf(true)) == (c == ct(false)),
+{ reveal(tv); reveal_with_fuel(nx, 1); lemma_nx_top(c.node, c.neg); if cwf(c) { lemma_nwf_wf_rec(c.node, c.neg); } }
+pub broadcast proof fn lemma_tv_below(c: CE, m: int)
+    requires cbelow(c, m),
+    ensures #[trigger] below(tv(c), m),
+{ reveal(tv); lemma_nbelow_below(c.node, c.neg, m); }
+pub broadcast proof fn lemma_vsv_cmk(n: bool, l: u32, t: CE, e: CE)
+    ensures #[trigger] vsv(cmk(n, l, t, e)) == mk(l, tv(t), tv(e)),
+{ reveal(tv); reveal(vsv); reveal_with_fuel(nx, 2); }
+pub broadcast proof fn lemma_vsv_ct(n: bool)
+    ensures #[trigger] vsv(ct(n)) == Tree::Leaf(true),
+{ reveal(vsv); reveal_with_fuel(nx, 1); }
+pub broadcast proof fn lemma_vsv_props(c: CE)
+    ensures cwf(c) ==> wf(#[trigger] vsv(c)), top(vsv(c)) == ctop(c), (vsv(c) is Leaf) == (c.node is One), !c.neg ==> vsv(c) == tv(c),
+{ reveal(tv); reveal(vsv); reveal_with_fuel(nx, 1); lemma_nx_top(c.node, false); if cwf(c) { lemma_nwf_wf_rec(c.node, false); } }
+pub broadcast proof fn lemma_vsv_below(c: CE, m: int)
+    requires cbelow(c, m),
+    ensures #[trigger] below(vsv(c), m),
+{ reveal(vsv); lemma_nbelow_below(c.node, false, m); }
+pub broadcast proof fn lemma_cxor_id(c: CE, b: bool)
+    requires !b,
+    ensures #[trigger] cxor(c, b) == c,
+{}
+pub broadcast group ce_tree { lemma_csem_tv, lemma_sem_mk, lemma_wf_mk, lemma_below_mk, lemma_tv_cmk, lemma_tv_ct, lemma_tv_props, lemma_tv_below,
+    lemma_vsv_cmk, lemma_vsv_ct, lemma_vsv_props, lemma_vsv_below, lemma_cxor_id }
+/// different edges of normal-form diagrams denote different BDDs (contrapositive of injectivity), for `reduce`
+pub broadcast proof fn lemma_tv_neq(a: CE, b: CE)
+    requires cwf(a), cwf(b), a != b,
+    ensures #[trigger] tv(a) != #[trigger] tv(b),
+{
+    reveal(tv);
+    if tv(a) == tv(b) { lemma_atl(a.node, a.neg); lemma_atl(b.node, b.neg); lemma_nx_inj(a.node, b.node, a.neg); }
+}
+/// extensionality of edges, made available to the solver for pairs of expansions
+pub broadcast proof fn lemma_tv_ext(a: CE, b: CE)
+    requires a.neg == b.neg, a.node == b.node,
+    ensures #[trigger] tv(a) == #[trigger] tv(b),
+{}
+pub broadcast group ce_inj_lemmas { lemma_tv_neq, lemma_tv_ext }
 
 // ---------- canonicity (C01): equal functions <=> identical normal-form diagrams <=> equal handles ----------
 //@lemma name=distinguish props=C01
@@ -821,6 +894,7 @@ pub proof fn canonicity(a: CE, b: CE)
     requires cwf(a), cwf(b), forall|env: Env| sem(tv(a), env) == sem(tv(b), env),
     ensures a == b,
 {
+    reveal(tv);
     lemma_nwf_wf_rec(a.node, a.neg); lemma_nwf_wf_rec(b.node, b.neg);
     if tv(a) != tv(b) { let e = distinguish(tv(a), tv(b)); assert(sem(tv(a), e) == sem(tv(b), e)); }
     lemma_atl(a.node, a.neg); lemma_atl(b.node, b.neg);
@@ -851,6 +925,7 @@ pub proof fn add_vars_preserves_function(c: CE, n: int, e1: Env, e2: Env)
     requires cbelow(c, n), forall|i: int| i < n ==> #[trigger] e1(i) == e2(i),
     ensures sem(tv(c), e1) == sem(tv(c), e2), forall|m: int| m >= n ==> #[trigger] cbelow(c, m),
 {
+    reveal(tv);
     add_vars_rec(c.node, c.neg, n, e1, e2);
 }
 pub proof fn add_vars_rec(c: CN, p: bool, n: int, e1: Env, e2: Env)
@@ -973,8 +1048,8 @@ pub trait Manager: Sized {
     /// ignores the tag of `e`
     fn get_node<'a>(&'a self, e: &'a Self::Edge) -> (n: Node<'a, Self>)
         ensures match n {
-            Node::Inner(node) => e.cv().node == nmk(node.level_spec(), node.then_c(), node.else_c()),
-            Node::Terminal(t) => e.cv().node == CN::One,
+            Node::Inner(node) => e.cv() == cmk(e.cv().neg, node.level_spec(), node.then_c(), node.else_c()),
+            Node::Terminal(t) => e.cv() == ct(e.cv().neg),
         };
     fn clone_edge(&self, e: &Self::Edge) -> (r: Self::Edge) ensures r.cv() == e.cv();
     fn drop_edge(&self, e: Self::Edge);
@@ -1109,25 +1184,25 @@ pub open spec fn aq_decode(o: u8) -> Option<(u8, u8)> {
 // ---------- postconditions = per-operator cache invariants (the meaning of a cache key) ----------
 pub open spec fn res_top_ok2(r: CE, a: CE, b: CE) -> bool { ctop(r) >= ctop(a) || ctop(r) >= ctop(b) }
 pub open spec fn bin_post(op: u8, f: CE, g: CE, n: int, r: CE) -> bool {
-    okc(r, n) && res_top_ok2(r, f, g) && forall|env: Env| #![trigger sem(nx(r.node, false), env)] semc(r, env) == op_sem(op, semc(f, env), semc(g, env))
+    okc(r, n) && res_top_ok2(r, f, g) && forall|env: Env| #[trigger] csem(r, env) == op_sem(op, csem(f, env), csem(g, env))
 }
 pub open spec fn ite_post(f: CE, g: CE, h: CE, n: int, r: CE) -> bool {
     okc(r, n) && (ctop(r) >= ctop(f) || ctop(r) >= ctop(g) || ctop(r) >= ctop(h))
-    && forall|env: Env| #![trigger sem(nx(r.node, false), env)] semc(r, env) == (if semc(f, env) { semc(g, env) } else { semc(h, env) })
+    && forall|env: Env| #[trigger] csem(r, env) == (if csem(f, env) { csem(g, env) } else { csem(h, env) })
 }
 pub open spec fn quant_post(q: u8, f: CE, vs: CE, n: int, r: CE) -> bool {
-    okc(r, n) && ctop(r) >= ctop(f) && forall|env: Env| #![trigger sem(nx(r.node, false), env)] semc(r, env) == qsem(q, tv(f), vsv(vs), env)
+    okc(r, n) && ctop(r) >= ctop(f) && forall|env: Env| #[trigger] csem(r, env) == qsem(q, tv(f), vsv(vs), env)
 }
 pub open spec fn apply_quant_post(q: u8, op: u8, f: CE, g: CE, vs: CE, n: int, r: CE) -> bool {
-    okc(r, n) && res_top_ok2(r, f, g) && forall|env: Env| #![trigger sem(nx(r.node, false), env)] semc(r, env) == qsem2(q, op, tv(f), tv(g), vsv(vs), env)
+    okc(r, n) && res_top_ok2(r, f, g) && forall|env: Env| #[trigger] csem(r, env) == qsem2(q, op, tv(f), tv(g), vsv(vs), env)
 }
 pub open spec fn restrict_post(f: CE, vars: CE, n: int, r: CE) -> bool {
-    okc(r, n) && ctop(r) >= ctop(f) && forall|env: Env| #![trigger sem(nx(r.node, false), env)] semc(r, env) == semc(f, cenv(tv(vars), env))
+    okc(r, n) && ctop(r) >= ctop(f) && forall|env: Env| #[trigger] csem(r, env) == csem(f, cenv(tv(vars), env))
 }
 pub open spec fn tviews(s: Seq<CE>) -> Seq<Tree> { s.map_values(|c: CE| tv(c)) }
 pub open spec fn all_ok<E: Edge>(s: Seq<E>, n: int) -> bool { forall|i: int| 0 <= i < s.len() ==> okc((#[trigger] s[i]).cv(), n) }
 pub open spec fn subst_post(f: CE, s: Seq<CE>, n: int, r: CE) -> bool {
-    okc(r, n) && forall|env: Env| #![trigger sem(nx(r.node, false), env)] semc(r, env) == semc(f, senv(tviews(s), env))
+    okc(r, n) && forall|env: Env| #[trigger] csem(r, env) == csem(f, senv(tviews(s), env))
 }
 /// the substitution registered under a substitution id (ASSUMED: ids are unique per substitution object, a fact about the
 /// global call history; `new_substitution_id` hands out fresh ids)
@@ -1159,6 +1234,29 @@ pub open spec fn cpopped(c: CE, until: int) -> CE decreases c {
         CN::Inner(l, t, _) => if (l as int) >= until { c } else { cpopped(*t, until) },
     }
 }
+pub broadcast proof fn lemma_cpopped(c: CE, u: int)
+    requires cwf(c),
+    ensures vsv(#[trigger] cpopped(c, u)) == popped(vsv(c), u), cwf(cpopped(c, u)), ctop(cpopped(c, u)) >= ctop(c),
+    decreases c,
+{
+    reveal(vsv); reveal_with_fuel(nx, 2); reveal_with_fuel(nwf, 2);
+    match c.node {
+        CN::One => {}
+        CN::Inner(l, t, e) => { if (l as int) < u { lemma_cpopped(*t, u); } }
+    }
+}
+pub broadcast proof fn lemma_cpopped_below(c: CE, u: int, m: int)
+    requires #[trigger] cbelow(c, m),
+    ensures cbelow(#[trigger] cpopped(c, u), m),
+    decreases c,
+{
+    reveal_with_fuel(nbelow, 2);
+    match c.node {
+        CN::One => {}
+        CN::Inner(l, t, e) => { if (l as int) < u { lemma_cpopped_below(*t, u, m); } }
+    }
+}
+pub broadcast group cpop_lemmas { lemma_cpopped, lemma_cpopped_below }
 mod lib_rs {
 use super::*;
 broadcast use ce_core;
@@ -1243,7 +1341,7 @@ fn next(&mut self) -> (res: Option<Borrowed<'a, E>>)
         // the tag-moving normal form: a complemented then-edge is pushed to the incoming edge and the else-edge
         && res->Ok_0.cv() == (if t.cv() == e.cv() { t.cv() } else { cmk(neg(t.cv()), level, cwith(t.cv(), false), cxor(e.cv(), neg(t.cv()))) })
         // ... which denotes the Shannon node over the two operands (or the operand itself if they are equal)
-        && forall|env: Env| #![trigger sem(nx(res->Ok_0.cv().node, false), env)] semc(res->Ok_0.cv(), env) == (if env(level as int) { semc(t.cv(), env) } else { semc(e.cv(), env) }),
+        && forall|env: Env| #[trigger] csem(res->Ok_0.cv(), env) == (if env(level as int) { csem(t.cv(), env) } else { csem(e.cv(), env) }),
 //@end
 //@fn file=crates/oxidd-rules-bdd/src/complement_edge/mod.rs path=fn:terminal_and props=C02,C06
 //@spec
@@ -1251,8 +1349,8 @@ fn next(&mut self) -> (res: Option<Borrowed<'a, E>>)
     ensures match res {
         NodesOrDone::Done(h) => bin_post(O_AND, f.cv(), g.cv(), manager.num_levels_spec(), h.edge.cv()),
         NodesOrDone::Nodes(fnode, gnode) =>
-            f.cv().node == nmk(fnode.level_spec(), fnode.then_c(), fnode.else_c())
-            && g.cv().node == nmk(gnode.level_spec(), gnode.then_c(), gnode.else_c()),
+            f.cv() == cmk(f.cv().neg, fnode.level_spec(), fnode.then_c(), fnode.else_c())
+            && g.cv() == cmk(g.cv().neg, gnode.level_spec(), gnode.then_c(), gnode.else_c()),
     },
 //@end
 //@fn file=crates/oxidd-rules-bdd/src/complement_edge/mod.rs path=fn:terminal_xor props=C02,C06
@@ -1261,8 +1359,8 @@ fn next(&mut self) -> (res: Option<Borrowed<'a, E>>)
     ensures match res {
         NodesOrDone::Done(h) => bin_post(O_XOR, f.cv(), g.cv(), manager.num_levels_spec(), h.edge.cv()),
         NodesOrDone::Nodes(fnode, gnode) =>
-            f.cv().node == nmk(fnode.level_spec(), fnode.then_c(), fnode.else_c())
-            && g.cv().node == nmk(gnode.level_spec(), gnode.then_c(), gnode.else_c()),
+            f.cv() == cmk(f.cv().neg, fnode.level_spec(), fnode.then_c(), fnode.else_c())
+            && g.cv() == cmk(g.cv().neg, gnode.level_spec(), gnode.then_c(), gnode.else_c()),
     },
 //@end
 impl BCDDOp {
@@ -1290,17 +1388,17 @@ impl<E: Edge, N: InnerNode<E>> ReducedOrNew<E, N> {
 mod apply_rec {
 use super::*;
 broadcast use {ce_core};
-//@fn file=crates/oxidd-rules-bdd/src/complement_edge/apply_rec.rs path=fn:apply_bin nodecr expect=R5:1 props=C02,C06
+//@fn file=crates/oxidd-rules-bdd/src/complement_edge/apply_rec.rs path=fn:apply_bin nodecr expect=R5:1 props=C02,C06 vis=pub
 //@spec
     requires is_nat(OP), edge_ok::<M::Edge>(), okc(f.cv(), manager.num_levels_spec()), okc(g.cv(), manager.num_levels_spec()),
     ensures res is Ok ==> bin_post(opcode(OP), f.cv(), g.cv(), manager.num_levels_spec(), res->Ok_0.cv()),
 //@end
-//@fn file=crates/oxidd-rules-bdd/src/complement_edge/apply_rec.rs path=fn:apply_and props=C02
+//@fn file=crates/oxidd-rules-bdd/src/complement_edge/apply_rec.rs path=fn:apply_and props=C02 vis=pub
 //@spec
     requires edge_ok::<M::Edge>(), okc(f.cv(), manager.num_levels_spec()), okc(g.cv(), manager.num_levels_spec()),
     ensures res is Ok ==> bin_post(O_AND, f.cv(), g.cv(), manager.num_levels_spec(), res->Ok_0.cv()),
 //@end
-//@fn file=crates/oxidd-rules-bdd/src/complement_edge/apply_rec.rs path=fn:apply_ite nodecr expect=R5:1 props=C02,C06
+//@fn file=crates/oxidd-rules-bdd/src/complement_edge/apply_rec.rs path=fn:apply_ite nodecr expect=R5:1 props=C02,C06 vis=pub
 //@spec
     requires edge_ok::<M::Edge>(), okc(f.cv(), manager.num_levels_spec()), okc(g.cv(), manager.num_levels_spec()), okc(h.cv(), manager.num_levels_spec()),
     ensures res is Ok ==> ite_post(f.cv(), g.cv(), h.cv(), manager.num_levels_spec(), res->Ok_0.cv()),
@@ -1312,7 +1410,7 @@ where M: Manager<EdgeTag = EdgeTag, Terminal = BCDDTerminal> + HasApplyCache<M, 
 //@spec
     requires edge_ok::<M::Edge>(), okc(lhs.cv(), manager.num_levels_spec()), okc(rhs.cv(), manager.num_levels_spec()),
     ensures res is Ok ==> okc(res->Ok_0.cv(), manager.num_levels_spec())
-        && forall|env: Env| #![trigger sem(nx(res->Ok_0.cv().node, false), env)] semc(res->Ok_0.cv(), env) == prop_and(semc(lhs.cv(), env), semc(rhs.cv(), env)),
+        && forall|env: Env| #[trigger] csem(res->Ok_0.cv(), env) == prop_and(csem(lhs.cv(), env), csem(rhs.cv(), env)),
 //@end
 //@fn file=crates/oxidd-rules-bdd/src/complement_edge/apply_rec.rs path=impl:BooleanFunction~for~BCDDFunction<F>/fn:or_edge selfcall=Self::> props=C02
 //@header
@@ -1321,7 +1419,7 @@ where M: Manager<EdgeTag = EdgeTag, Terminal = BCDDTerminal> + HasApplyCache<M, 
 //@spec
     requires edge_ok::<M::Edge>(), okc(lhs.cv(), manager.num_levels_spec()), okc(rhs.cv(), manager.num_levels_spec()),
     ensures res is Ok ==> okc(res->Ok_0.cv(), manager.num_levels_spec())
-        && forall|env: Env| #![trigger sem(nx(res->Ok_0.cv().node, false), env)] semc(res->Ok_0.cv(), env) == prop_or(semc(lhs.cv(), env), semc(rhs.cv(), env)),
+        && forall|env: Env| #[trigger] csem(res->Ok_0.cv(), env) == prop_or(csem(lhs.cv(), env), csem(rhs.cv(), env)),
 //@end
 //@fn file=crates/oxidd-rules-bdd/src/complement_edge/apply_rec.rs path=impl:BooleanFunction~for~BCDDFunction<F>/fn:nand_edge selfcall=Self::> props=C02
 //@header
@@ -1330,7 +1428,7 @@ where M: Manager<EdgeTag = EdgeTag, Terminal = BCDDTerminal> + HasApplyCache<M, 
 //@spec
     requires edge_ok::<M::Edge>(), okc(lhs.cv(), manager.num_levels_spec()), okc(rhs.cv(), manager.num_levels_spec()),
     ensures res is Ok ==> okc(res->Ok_0.cv(), manager.num_levels_spec())
-        && forall|env: Env| #![trigger sem(nx(res->Ok_0.cv().node, false), env)] semc(res->Ok_0.cv(), env) == prop_nand(semc(lhs.cv(), env), semc(rhs.cv(), env)),
+        && forall|env: Env| #[trigger] csem(res->Ok_0.cv(), env) == prop_nand(csem(lhs.cv(), env), csem(rhs.cv(), env)),
 //@end
 //@fn file=crates/oxidd-rules-bdd/src/complement_edge/apply_rec.rs path=impl:BooleanFunction~for~BCDDFunction<F>/fn:nor_edge props=C02
 //@header
@@ -1339,7 +1437,7 @@ where M: Manager<EdgeTag = EdgeTag, Terminal = BCDDTerminal> + HasApplyCache<M, 
 //@spec
     requires edge_ok::<M::Edge>(), okc(lhs.cv(), manager.num_levels_spec()), okc(rhs.cv(), manager.num_levels_spec()),
     ensures res is Ok ==> okc(res->Ok_0.cv(), manager.num_levels_spec())
-        && forall|env: Env| #![trigger sem(nx(res->Ok_0.cv().node, false), env)] semc(res->Ok_0.cv(), env) == prop_nor(semc(lhs.cv(), env), semc(rhs.cv(), env)),
+        && forall|env: Env| #[trigger] csem(res->Ok_0.cv(), env) == prop_nor(csem(lhs.cv(), env), csem(rhs.cv(), env)),
 //@end
 //@fn file=crates/oxidd-rules-bdd/src/complement_edge/apply_rec.rs path=impl:BooleanFunction~for~BCDDFunction<F>/fn:xor_edge props=C02
 //@header
@@ -1348,7 +1446,7 @@ where M: Manager<EdgeTag = EdgeTag, Terminal = BCDDTerminal> + HasApplyCache<M, 
 //@spec
     requires edge_ok::<M::Edge>(), okc(lhs.cv(), manager.num_levels_spec()), okc(rhs.cv(), manager.num_levels_spec()),
     ensures res is Ok ==> okc(res->Ok_0.cv(), manager.num_levels_spec())
-        && forall|env: Env| #![trigger sem(nx(res->Ok_0.cv().node, false), env)] semc(res->Ok_0.cv(), env) == prop_xor(semc(lhs.cv(), env), semc(rhs.cv(), env)),
+        && forall|env: Env| #[trigger] csem(res->Ok_0.cv(), env) == prop_xor(csem(lhs.cv(), env), csem(rhs.cv(), env)),
 //@end
 //@fn file=crates/oxidd-rules-bdd/src/complement_edge/apply_rec.rs path=impl:BooleanFunction~for~BCDDFunction<F>/fn:equiv_edge selfcall=Self::> props=C02
 //@header
@@ -1357,7 +1455,7 @@ where M: Manager<EdgeTag = EdgeTag, Terminal = BCDDTerminal> + HasApplyCache<M, 
 //@spec
     requires edge_ok::<M::Edge>(), okc(lhs.cv(), manager.num_levels_spec()), okc(rhs.cv(), manager.num_levels_spec()),
     ensures res is Ok ==> okc(res->Ok_0.cv(), manager.num_levels_spec())
-        && forall|env: Env| #![trigger sem(nx(res->Ok_0.cv().node, false), env)] semc(res->Ok_0.cv(), env) == prop_equiv(semc(lhs.cv(), env), semc(rhs.cv(), env)),
+        && forall|env: Env| #[trigger] csem(res->Ok_0.cv(), env) == prop_equiv(csem(lhs.cv(), env), csem(rhs.cv(), env)),
 //@end
 //@fn file=crates/oxidd-rules-bdd/src/complement_edge/apply_rec.rs path=impl:BooleanFunction~for~BCDDFunction<F>/fn:imp_edge props=C02
 //@header
@@ -1366,7 +1464,7 @@ where M: Manager<EdgeTag = EdgeTag, Terminal = BCDDTerminal> + HasApplyCache<M, 
 //@spec
     requires edge_ok::<M::Edge>(), okc(lhs.cv(), manager.num_levels_spec()), okc(rhs.cv(), manager.num_levels_spec()),
     ensures res is Ok ==> okc(res->Ok_0.cv(), manager.num_levels_spec())
-        && forall|env: Env| #![trigger sem(nx(res->Ok_0.cv().node, false), env)] semc(res->Ok_0.cv(), env) == prop_imp(semc(lhs.cv(), env), semc(rhs.cv(), env)),
+        && forall|env: Env| #[trigger] csem(res->Ok_0.cv(), env) == prop_imp(csem(lhs.cv(), env), csem(rhs.cv(), env)),
 //@end
 //@fn file=crates/oxidd-rules-bdd/src/complement_edge/apply_rec.rs path=impl:BooleanFunction~for~BCDDFunction<F>/fn:imp_strict_edge props=C02
 //@header
@@ -1375,7 +1473,7 @@ where M: Manager<EdgeTag = EdgeTag, Terminal = BCDDTerminal> + HasApplyCache<M, 
 //@spec
     requires edge_ok::<M::Edge>(), okc(lhs.cv(), manager.num_levels_spec()), okc(rhs.cv(), manager.num_levels_spec()),
     ensures res is Ok ==> okc(res->Ok_0.cv(), manager.num_levels_spec())
-        && forall|env: Env| #![trigger sem(nx(res->Ok_0.cv().node, false), env)] semc(res->Ok_0.cv(), env) == prop_imp_strict(semc(lhs.cv(), env), semc(rhs.cv(), env)),
+        && forall|env: Env| #[trigger] csem(res->Ok_0.cv(), env) == prop_imp_strict(csem(lhs.cv(), env), csem(rhs.cv(), env)),
 //@end
 //@fn file=crates/oxidd-rules-bdd/src/complement_edge/apply_rec.rs path=impl:BooleanFunction~for~BCDDFunction<F>/fn:not_edge props=C02
 //@header
@@ -1384,7 +1482,7 @@ where M: Manager<EdgeTag = EdgeTag, Terminal = BCDDTerminal> + HasApplyCache<M, 
 //@spec
     requires okc(edge.cv(), manager.num_levels_spec()),
     ensures res is Ok ==> okc(res->Ok_0.cv(), manager.num_levels_spec())
-        && forall|env: Env| #![trigger sem(nx(res->Ok_0.cv().node, false), env)] semc(res->Ok_0.cv(), env) == !semc(edge.cv(), env),
+        && forall|env: Env| #[trigger] csem(res->Ok_0.cv(), env) == !csem(edge.cv(), env),
 //@end
 //@fn file=crates/oxidd-rules-bdd/src/complement_edge/apply_rec.rs path=impl:BooleanFunction~for~BCDDFunction<F>/fn:not_edge_owned props=C02
 //@header
@@ -1393,7 +1491,7 @@ where M: Manager<EdgeTag = EdgeTag, Terminal = BCDDTerminal> + HasApplyCache<M, 
 //@spec
     requires okc(edge.cv(), _manager.num_levels_spec()),
     ensures res is Ok ==> okc(res->Ok_0.cv(), _manager.num_levels_spec())
-        && forall|env: Env| #![trigger sem(nx(res->Ok_0.cv().node, false), env)] semc(res->Ok_0.cv(), env) == !semc(edge.cv(), env),
+        && forall|env: Env| #[trigger] csem(res->Ok_0.cv(), env) == !csem(edge.cv(), env),
 //@end
 //@fn file=crates/oxidd-rules-bdd/src/complement_edge/apply_rec.rs path=impl:BooleanFunction~for~BCDDFunction<F>/fn:ite_edge props=C02
 //@header
@@ -1402,7 +1500,7 @@ where M: Manager<EdgeTag = EdgeTag, Terminal = BCDDTerminal> + HasApplyCache<M, 
 //@spec
     requires edge_ok::<M::Edge>(), okc(if_edge.cv(), manager.num_levels_spec()), okc(then_edge.cv(), manager.num_levels_spec()), okc(else_edge.cv(), manager.num_levels_spec()),
     ensures res is Ok ==> okc(res->Ok_0.cv(), manager.num_levels_spec())
-        && forall|env: Env| #![trigger sem(nx(res->Ok_0.cv().node, false), env)] semc(res->Ok_0.cv(), env) == (if semc(if_edge.cv(), env) { semc(then_edge.cv(), env) } else { semc(else_edge.cv(), env) }),
+        && forall|env: Env| #[trigger] csem(res->Ok_0.cv(), env) == (if csem(if_edge.cv(), env) { csem(then_edge.cv(), env) } else { csem(else_edge.cv(), env) }),
 //@end
 //@fn file=crates/oxidd-rules-bdd/src/complement_edge/apply_rec.rs path=impl:BooleanFunction~for~BCDDFunction<F>/fn:var_edge props=C02,C03
 //@header
@@ -1411,29 +1509,69 @@ where M: Manager<EdgeTag = EdgeTag, Terminal = BCDDTerminal> + HasApplyCache<M, 
 //@spec
     requires (var as int) < manager.num_levels_spec(),
     ensures res is Ok ==> okc(res->Ok_0.cv(), manager.num_levels_spec())
-        && forall|env: Env| #![trigger sem(nx(res->Ok_0.cv().node, false), env)] semc(res->Ok_0.cv(), env) == env(manager.var_to_level_spec(var as int)),
+        && forall|env: Env| #[trigger] csem(res->Ok_0.cv(), env) == env(manager.var_to_level_spec(var as int)),
 //@end
 //@fn file=crates/oxidd-rules-bdd/src/complement_edge/apply_rec.rs path=impl:BooleanFunction~for~BCDDFunction<F>/fn:f_edge props=C02
 //@header
 fn f_edge<M>(manager: &M) -> (res: M::Edge)
 where M: Manager<EdgeTag = EdgeTag, Terminal = BCDDTerminal> + HasApplyCache<M, BCDDOp>, M::InnerNode: HasLevel,
 //@spec
-    ensures res.cv() == ct(true), forall|env: Env| semc(res.cv(), env) == false,
+    ensures res.cv() == ct(true), forall|env: Env| csem(res.cv(), env) == false,
 //@end
 //@fn file=crates/oxidd-rules-bdd/src/complement_edge/apply_rec.rs path=impl:BooleanFunction~for~BCDDFunction<F>/fn:t_edge props=C02
 //@header
 fn t_edge<M>(manager: &M) -> (res: M::Edge)
 where M: Manager<EdgeTag = EdgeTag, Terminal = BCDDTerminal> + HasApplyCache<M, BCDDOp>, M::InnerNode: HasLevel,
 //@spec
-    ensures res.cv() == ct(false), forall|env: Env| semc(res.cv(), env) == true,
+    ensures res.cv() == ct(false), forall|env: Env| csem(res.cv(), env) == true,
 //@end
 //@fn file=crates/oxidd-rules-bdd/src/complement_edge/apply_rec.rs path=impl:BooleanFunction~for~BCDDFunction<F>/fn:eval_edge/fn:inner rename=eval_edge__inner ret=r props=C02
 //@spec
     requires cwf(edge.cv()),
-    ensures r == (complement != semc(edge.cv(), |l: int| !choices.spec_contains(l))),
+    ensures r == (complement != csem(edge.cv(), |l: int| !choices.spec_contains(l))),
     decreases u32::MAX as int - ctop(edge.cv()),
 //@end
 } // mod apply_rec
+
+mod apply_rec_q {
+use super::*;
+use super::apply_rec::*;
+broadcast use {ce_core, ce_tree, cpop_lemmas, quant_lemmas, quant2_lemmas};
+//@fn file=crates/oxidd-rules-bdd/src/complement_edge/apply_rec.rs path=fn:quant nodecr expect=R5:1 props=C04,C06 cases=Q:BCDDOp::Forall~as~u8,BCDDOp::Exists~as~u8,BCDDOp::Unique~as~u8
+//@spec
+    requires is_qop(Q), edge_ok::<M::Edge>(), okc(f.cv(), manager.num_levels_spec()), okc(vars.cv(), manager.num_levels_spec()),
+    ensures res is Ok ==> quant_post(qcode(Q), f.cv(), vars.cv(), manager.num_levels_spec(), res->Ok_0.cv()),
+//@end
+//@fn file=crates/oxidd-rules-bdd/src/complement_edge/apply_rec.rs path=fn:apply_quant nodecr expect=R5:1,R12:1 props=C04,C06 cases=Q:BCDDOp::Forall~as~u8,BCDDOp::Exists~as~u8,BCDDOp::Unique~as~u8
+//@spec
+    requires is_aq(Q, OP), edge_ok::<M::Edge>(), okc(f.cv(), manager.num_levels_spec()), okc(g.cv(), manager.num_levels_spec()), okc(vars.cv(), manager.num_levels_spec()),
+    ensures res is Ok ==> apply_quant_post(qcode(Q), opcode(OP), f.cv(), g.cv(), vars.cv(), manager.num_levels_spec(), res->Ok_0.cv()),
+//@end
+//@fn file=crates/oxidd-rules-bdd/src/complement_edge/apply_rec.rs path=impl:BooleanFunctionQuant~for~BCDDFunction<F>/fn:forall_edge props=C04
+//@header
+fn forall_edge<M>(manager: &M, root: &M::Edge, vars: &M::Edge) -> (res: AllocResult<M::Edge>)
+where M: Manager<EdgeTag = EdgeTag, Terminal = BCDDTerminal> + HasApplyCache<M, BCDDOp>, M::InnerNode: HasLevel,
+//@spec
+    requires edge_ok::<M::Edge>(), okc(root.cv(), manager.num_levels_spec()), okc(vars.cv(), manager.num_levels_spec()),
+    ensures res is Ok ==> quant_post(O_AND, root.cv(), vars.cv(), manager.num_levels_spec(), res->Ok_0.cv()),
+//@end
+//@fn file=crates/oxidd-rules-bdd/src/complement_edge/apply_rec.rs path=impl:BooleanFunctionQuant~for~BCDDFunction<F>/fn:exists_edge props=C04
+//@header
+fn exists_edge<M>(manager: &M, root: &M::Edge, vars: &M::Edge) -> (res: AllocResult<M::Edge>)
+where M: Manager<EdgeTag = EdgeTag, Terminal = BCDDTerminal> + HasApplyCache<M, BCDDOp>, M::InnerNode: HasLevel,
+//@spec
+    requires edge_ok::<M::Edge>(), okc(root.cv(), manager.num_levels_spec()), okc(vars.cv(), manager.num_levels_spec()),
+    ensures res is Ok ==> quant_post(O_OR, root.cv(), vars.cv(), manager.num_levels_spec(), res->Ok_0.cv()),
+//@end
+//@fn file=crates/oxidd-rules-bdd/src/complement_edge/apply_rec.rs path=impl:BooleanFunctionQuant~for~BCDDFunction<F>/fn:unique_edge props=C04
+//@header
+fn unique_edge<M>(manager: &M, root: &M::Edge, vars: &M::Edge) -> (res: AllocResult<M::Edge>)
+where M: Manager<EdgeTag = EdgeTag, Terminal = BCDDTerminal> + HasApplyCache<M, BCDDOp>, M::InnerNode: HasLevel,
+//@spec
+    requires edge_ok::<M::Edge>(), okc(root.cv(), manager.num_levels_spec()), okc(vars.cv(), manager.num_levels_spec()),
+    ensures res is Ok ==> quant_post(O_XOR, root.cv(), vars.cv(), manager.num_levels_spec(), res->Ok_0.cv()),
+//@end
+} // mod apply_rec_q
 } // mod complement_edge
 } // verus!
 fn main() {}
